@@ -34,7 +34,8 @@ COMPONENTS = {"real": ["dali.memory.location.MemoryValue.write / write_raw, valu
 PROBES = ["fault-answer-no", "fault-echo-other", "fault-garble", "fault-garble-same-bits", "fault-drop", "fault-dtr0-frozen", "fault-dtr0-stuck-once", "fault-stays-locked",
           "fault-odd-unlock-value", "fault-short-bank", "fault-foreign-frame", "readonly-refused", "device-addressing",
           "ignore-feedback", "short-string-write", "initially-unlocked", "value-level-write-int", "value-level-write-mask",
-          "value-level-write-tmask", "value-level-write-str", "value-level-write-out-of-range"]
+          "value-level-write-tmask", "value-level-write-str", "value-level-write-out-of-range", "raw-data-longer-than-the-value",
+          "earlier-calls-in-same-process"]
 DOCUMENTED = (MemoryLocationNotWriteable, MemoryWriteFailure, MemoryWriteError, ResponseError)
 
 
@@ -84,7 +85,23 @@ def gen_base(seed, tier="quick"):
         if opts:
             via = r.choice(opts)
             raw = list(expected_raw(v, via)) if via[0] != "int-bad" else []
-    return {"engine": "busim", "property": PROP, "seed": seed, "bank": key, "value": v.name, "raw": raw, "via": via,
+    elif not ro and v.name != "LockByte" and r.random() < 0.06:
+        # more data than the value has locations - with and without allow_short_write: refused before anything is sent
+        via = ["raw-too-long", [r.randrange(256) for _ in range(n + r.choice([1, 1, 2, 7]))], r.random() < 0.6]
+    h = plans.rng_for(seed, PROP + "-history")
+    prelude = None
+    if h.random() < 0.2:
+        strs = [(k_, vv.name) for k_, vv in memsim.WRITABLE_VALUES if issubclass(vv, location.StringValue)]
+        nums = [(k_, vv.name) for k_, vv in memsim.WRITABLE_VALUES if issubclass(vv, location.NumericValue) and vv.name != "LockByte"
+                and not issubclass(vv, (location.FixedScaleNumericValue, location.TemperatureValue))]
+        prelude = []
+        for _ in range(h.randrange(1, 3)):
+            pkw = h.choice([{"ignore_feedback": True}, {"force_unlock": True}, {"ignore_feedback": True, "force_unlock": True}, {}])
+            if h.random() < 0.6:
+                prelude.append([list(h.choice(strs)), "".join(chr(h.randrange(0x41, 0x5B)) for _ in range(h.randrange(0, 6))), pkw])
+            else:
+                prelude.append([list(h.choice(nums)), h.randrange(0, 100), pkw])
+    return {"engine": "busim", "property": PROP, "seed": seed, "bank": key, "value": v.name, "raw": raw, "via": via, "prelude": prelude,
             "short_write": ln != n, "lock": r.choice([0xFF, 0xFF, 0x55, 0x12, 0x00]),
             "kind": r.choice(["gear", "gear", "device"]), "short": r.randrange(64),
             "ignore_feedback": r.random() < 0.12,
@@ -173,12 +190,23 @@ def run_plan(plan):
 
     try:
         via = plan.get("via")
-        if via:
+        for pv, pval, pkw in plan.get("prelude") or []:
+            # earlier writes in this process, with other options, to some other unit: they must leave nothing behind
+            pcls = _find_value(*pv)
+            pb = memsim.make_model(pv[0], plans.rng_for(plan["seed"], PROP + "-prelude"), lock=0xFF)
+            pu = memsim.make_unit("gear", 9, [pb])
+            try:
+                busim.run_sequence(pcls.write(memsim.addr_obj("gear", 9), pval, **pkw), busim.Bus([pu]), cap=200, log=EventLog())
+            except Exception:                   # noqa: BLE001
+                pass
+            probes["earlier-calls-in-same-process"] = 1
+        if via and via[0] == "raw-too-long":
+            gen = v.write_raw(addr, bytes(via[1]), allow_short_write=via[2], force_unlock=plan["force_unlock"],
+                              ignore_feedback=plan["ignore_feedback"])
+        elif via:
             kw.pop("allow_short_write")
             probes["value-level-write-" + via[0].lower()] = 1
             gen = v.write(addr, via[0] if via[0] in ("MASK", "TMASK") else via[1], **kw)
-            if via[0] == "int-bad":
-                kw = {}
         else:
             gen = v.write_raw(addr, raw, **kw)
         sr = busim.run_sequence(gen, bus, answer_faults=answer_faults, cap=400, env=env, log=log)
@@ -186,9 +214,18 @@ def run_plan(plan):
         sr = busim.SeqRun()
         sr.status, sr.exc = "raise", e
     writable = memsim.is_writable(v)
-    if plan.get("via") and plan["via"][0] == "int-bad":
-        probes["value-level-write-out-of-range"] = 1
-        if sr.status != "raise":
+    if plan.get("via") and plan["via"][0] == "raw-too-long":
+        probes["raw-data-longer-than-the-value"] = 1
+        if sr.status != "raise" or sr.steps:
+            V("over-long-data-accepted", "%s.%s.write_raw(%d bytes for %d locations, allow_short_write=%s): %s after %d commands" % (
+                key, v.name, len(plan["via"][1]), len(v.locations), plan["via"][2], sr.status, sr.steps),
+              site="allow-short-write" if plan["via"][2] else "plain")
+    if plan.get("via") and plan["via"][0] in ("int-bad", "raw-too-long"):
+        if plan["via"][0] == "int-bad":
+            probes["value-level-write-out-of-range"] = 1
+        if plan["via"][0] == "raw-too-long":
+            pass
+        elif sr.status != "raise":
             V("out-of-range-value-accepted", "%s.%s.write(%d): %s; the %d location(s) now hold %s" % (
                 key, v.name, plan["via"][1], sr.status, len(v.locations),
                 [bank.cells[l.address] for l in v.locations]), site="accepted")
@@ -196,7 +233,7 @@ def run_plan(plan):
             V("out-of-range-value-accepted", "%s.%s.write(%d): refused only after %d commands" % (
                 key, v.name, plan["via"][1], sr.steps), site="refused-late")
         if [a for a in range(256) if bank.cells[a] != before[bank.number][a]]:
-            V("other-location-changed", "%s.%s.write(%d) changed the unit's memory" % (key, v.name, plan["via"][1]),
+            V("other-location-changed", "%s.%s: refused input %r changed the unit's memory" % (key, v.name, plan["via"][1]),
               site="out-of-range")
         for x in vs:
             add_violation(res, x)
